@@ -16,6 +16,10 @@ Geometry is stated over an arbitrary commutative ring / field `K`; `Orth R` is `
 -/
 namespace C17
 
+-- Statements that involve `$variable` substitution or casefolded name comparison hold for any
+-- per-character case fold table `[CharFold]` (ASCII lower-casing is the default instance; the driver
+-- installs the table extracted from Python for each request).
+
 /-! ## placement algebra -/
 section Geometry
 variable {K : Type} [CommRing K]
@@ -84,7 +88,7 @@ theorem C17_dot (R : M3 K) (h : Orth R) (p q : V3 K) : (rot R p).dot (rot R q) =
 /-- **Orientation.** An orientation `m` (`Matrix.from_angle` of an `angles` value) becomes `m·R`,
 which acts as "first the entity's own orientation, then the instance rotation", and is again
 orthogonal. -/
-theorem C17_orient (I : Inst K) (m : M3 K) :
+theorem C17_orient [CharFold] (I : Inst K) (m : M3 K) :
     (∀ [Div K], fixupKey I (.orient m) = .orient (m.mul I.P.R)) ∧
     (∀ v, rot (m.mul I.P.R) v = rot I.P.R (rot m v)) ∧
     (Orth m → Orth I.P.R → Orth (m.mul I.P.R)) :=
@@ -106,17 +110,20 @@ theorem C17_orient_angles (toAngle : M3 K → Trig K)
 end Geometry
 
 section Texture
-variable {K : Type} [Field K]
+variable {K : Type} [Field K] [CharFold]
 
+omit [CharFold] in
 /-- **Texture alignment moves with the geometry**: the texture coordinate of a placed point under
 the localised axis (`offset − (axis'·o)/scale`, exactly as coded) equals the original coordinate. -/
 theorem C17_uv (P : Placement K) (h : Orth P.R) (ax : UVAxis K) (p : V3 K) :
     texCoord (localiseAxis P ax) (place P p) = texCoord ax p := texCoord_localise h ax p
 
+omit [CharFold] in
 /-- Localising an axis twice is localising by the composed placement (nested instances). -/
 theorem C17_uv_compose (P₁ P₂ : Placement K) (h : Orth P₂.R) (ax : UVAxis K) :
     localiseAxis P₂ (localiseAxis P₁ ax) = localiseAxis (P₁.comp P₂) ax := localiseAxis_comp h ax
 
+omit [CharFold] in
 /-- Whole faces/brushes: `localise` composes. -/
 theorem C17_solid_compose (P₁ P₂ : Placement K) (h : Orth P₂.R) (b : Solid K) :
     Solid.localise P₂ (Solid.localise P₁ b) = Solid.localise (P₁.comp P₂) b :=
@@ -135,6 +142,7 @@ theorem C17_repeat (T : Template K) (I : Inst K) (P₁ P₂ : Placement K)
     collapse T (I.at P₂) = mapGeometry (P₁.inv.comp P₂) (collapse T (I.at P₁)) :=
   collapse_two_placements T I P₁ P₂ h₁ h₂
 
+omit [CharFold] in
 /-- `R·Rᵀ = 1` already gives `Rᵀ·R = 1` over any commutative ring (the inverse placement
 `q ↦ (q − o)·Rᵀ` really undoes the placement). -/
 theorem C17_orth_transpose {K : Type} [CommRing K] (R : M3 K) (h : Orth R) : Orth R.transpose :=
@@ -205,6 +213,9 @@ theorem C17_fixup_prefix_twice (inst name : List Char) (hi : passThrough inst = 
 
 /-! ## `$variable` substitution -/
 
+section Subst
+variable [CharFold]
+
 /-- Text without `$` is returned unchanged; a `$`-free prefix is copied. -/
 theorem C17_subst_plain (t : FixTable) (d a b : List Char) (h : '$' ∉ a) :
     substitute t d a = a ∧ substitute t d (a ++ b) = a ++ substitute t d b :=
@@ -254,13 +265,10 @@ theorem C17_subst_order_irrelevant (t₁ t₂ : FixTable) (hp : t₁.Perm t₂)
 `$` is replaced by the default on its own (`$abc` → `abc` with default `''`), whereas with a
 non-empty table an undefined identifier is replaced as a whole (`$abc` → `''`). -/
 theorem C17_subst_empty_table (d rest : List Char) :
-    substitute [] d ('$' :: rest) = d ++ substitute [] d rest ∧
-    substitute [(['x'], ['1'])] [] ['$', 'a', 'b', 'c', ' ', '$', 'x'] = [' ', '1'] := by
-  constructor
-  · have : matchVar [] d rest = some (0, d) := by
-      simp [matchVar, alternatives, firstMatch, matchesCI, lookupFix]
-    rw [substitute_var [] d rest d 0 this]; simp
-  · decide +kernel
+    substitute [] d ('$' :: rest) = d ++ substitute [] d rest := by
+  have : matchVar [] d rest = some (0, d) := by
+    simp [matchVar, alternatives, firstMatch, matchesCI, lookupFix]
+  rw [substitute_var [] d rest d 0 this]; simp
 
 /-- **A supplied variable wins; an unsupplied one falls back as coded.** The longest defined name
 after a `$` is replaced by the value the instance supplies; when no defined name matches, the
@@ -274,6 +282,7 @@ theorem C17_var_supplied_wins (t : FixTable) (d rest : List Char) :
   ⟨fun k v hm hv => substitute_supplied t d rest k v hm hv,
    fun n ht hm hid => substitute_unsupplied t ht d rest n hm hid⟩
 
+omit [CharFold] in
 /-- `func_instance_parms`: `name type default…` is read as that name, that type token and the
 default = everything after the second space, spaces included (`split(' ', 2)`); with the former
 `split(' ', 3)` a default containing a space was lost. -/
@@ -341,10 +350,18 @@ theorem C17_io_parse (ents : List IOEnt) :
   obtain ⟨e, he, hp, o, ho, hr, hk, _⟩ := parseIO_inputs_from_proxies ents k p h
   exact ⟨e, he, hp, o, ho, hr, hk⟩
 
+omit [CharFold] in
 /-- Fire counts: a negative count is "unlimited"; otherwise the smaller one. -/
 theorem C17_io_times (a b : Int) :
     (b < 0 → combineTimes a b = a) ∧ (0 ≤ b → a < 0 → combineTimes a b = b) ∧
     (0 ≤ a → 0 ≤ b → combineTimes a b = min a b) := combineTimes_spec a b
+
+end Subst
+
+/-- …for instance `$abc $x` with the table {x ↦ 1} gives ` 1` (the undefined `$abc` vanishes). -/
+theorem C17_subst_undefined_example :
+    substitute [(['x'], ['1'])] [] ['$', 'a', 'b', 'c', ' ', '$', 'x'] = [' ', '1'] := by
+  decide +kernel
 
 /-! ## collapse_all terminates -/
 
